@@ -5,7 +5,7 @@
    one outcome per event out; every nil-able Go field is an option and every dereference is checked,
    a failed check makes the step return None (= the Go code would panic). *)
 From GVL Require Import NList.
-From GV_serverhostile Require Import Model Basics Inv FindFree Handlers Step Frame Proofs.
+From GV_serverhostile Require Import Model Basics Inv FindFree Handlers Step Frame Proofs Release.
 Open Scope N_scope.
 
 (* hostile_no_panic: for every configuration whose served stream has at least one media, NO list of
@@ -73,9 +73,10 @@ Print Assumptions C11_serverhostile_find_free_terminates.
    connection is not paired with and that the request does not name (session ids are unguessable
    secrets): the session record (state, transport, medias, attached connections, TCP connection,
    writer, timer) is identical and its reader / active-reader slots in the stream are unchanged.
-   Missing for the full statement: the session's UDP registrations, which CAN be taken over by a
-   session of the same IP that uses the same client ports (refuted below), and the survival of the
-   session's own control connections (needs the attachment invariant; observed by the harness). *)
+   Missing for the full statement: the session's UDP registrations, which CAN still be taken over by a
+   session of the same IP that uses the same client ports (NOT fixed in /repo; refuted below).  That the
+   session's own control connections survive follows from the record being identical (s_conns) and
+   from C11_serverhostile_sessions_mortal's pairing invariant; it is not stated separately. *)
 Theorem C11_serverhostile_others_unaffected_partial : forall g s cid e s' o x ssx,
   Inv s -> step g s (SConn cid e) = Some (s', o) ->
   find_sess x (v_sess s) = Some ssx ->
@@ -86,11 +87,33 @@ Theorem C11_serverhostile_others_unaffected_partial : forall g s cid e s' o x ss
 Proof. exact others_unaffected_partial. Qed.
 Print Assumptions C11_serverhostile_others_unaffected_partial.
 
-(* resources_released, partial: when a session ends it leaves Server.sessions, every connection attached
-   to it is closed, and (if it had joined the stream) its reader slot and its active-reader slot are
-   gone.  Missing for the full statement (the ledger after a hostile connection and its sessions ended
-   equals the ledger before): the ownership invariant of the UDP registrations, which is FALSE of the
-   code (see the two refutations below). *)
+(* resources_released (after fix ba05e77 every session is mortal): in EVERY reachable state in which no
+   connection is left, every remaining session has its check timer armed (it is a UDP / multicast
+   session that is playing or recording), and once those timers have fired Server.sessions is empty,
+   the multicast reader count is 0 and the multicast writers are released.  [drain] fires the timer of
+   every listed session. *)
+Theorem C11_serverhostile_resources_released : forall g evs s os,
+  0 < c_nmedias g -> run_events g srv0 evs = Some (s, os) -> v_conns s = [] ->
+  (forall ss, In ss (v_sess s) -> s_timer ss = true) /\
+  exists s', drain g s (v_sess s) = Some s' /\
+             v_conns s' = [] /\ v_sess s' = [] /\ v_mcount s' = 0 /\ v_mwriters s' = false.
+Proof. exact resources_released. Qed.
+Print Assumptions C11_serverhostile_resources_released.
+
+(* no immortal session: in every reachable state every session can be ended, by its armed timer or by
+   closing a connection that exists, is attached to it and is paired with it *)
+Theorem C11_serverhostile_sessions_mortal : forall g evs s os ss,
+  0 < c_nmedias g -> run_events g srv0 evs = Some (s, os) -> In ss (v_sess s) ->
+  s_timer ss = true \/ exists c, In c (v_conns s) /\ In (c_id c) (s_conns ss) /\ c_sess c = Some (s_id ss).
+Proof. exact sessions_mortal. Qed.
+Print Assumptions C11_serverhostile_sessions_mortal.
+
+(* resources_released, the stream and UDP slots (partial): when a session ends it leaves
+   Server.sessions, every connection attached to it is closed, and (if it had joined the stream) its
+   reader slot and its active-reader slot are gone.  Not proved: that the reader / active-reader lists
+   and the two UDP client maps are EMPTY in the quiescent state of the theorem above (needs the
+   slot-ownership invariant "every entry is owned by a live session", true of the model but not
+   carried through the handlers here); the harness measures exactly that after every scenario. *)
 Theorem C11_serverhostile_resources_released_partial : forall s sid ss s',
   find_sess sid (v_sess s) = Some ss -> end_session s sid = Some s' ->
   find_sess sid (v_sess s') = None /\
